@@ -35,6 +35,7 @@ def NoCopy.hasM (N : NoCopy) : MapO → Bool
 def identN (N : NoCopy) : Ty → Bool
   | .any | .none | .bool | .int | .float | .str => true
   | .union ts => allIdent ts
+  | .opt t => identN N t                 -- Optional of an identity-packed type needs no None guard
   | .coll o t => N.hasC o && identN N t
   | .map o k t => N.hasM o && identN N k && (o == .counter || identN N t)
   | _ => false
